@@ -206,6 +206,9 @@ class Verdict:
             if re.fullmatch(f["signature"], signature):
                 self.seen_known.setdefault(f["id"], (f, detail))
                 return False
+        if any(sig == signature for sig, _, _ in self.new):
+            self.repeats = getattr(self, "repeats", 0) + 1
+            return True
         if len(self.new) < 50:
             os.makedirs(REPLAY, exist_ok=True)
             path = os.path.join(REPLAY, "%s-%d.json" % (self.prop, len(self.new)))
